@@ -177,7 +177,8 @@ def builddir_shapes():
     """Projects that bind `builddir`: both logs and the lock file live there, for the dry run and the tools as well."""
     return [("builddir_deps", [
         Variant("v0", [Stmt("obj", ex=["src"], hidden=["hdr"], deps="gcc"), Stmt("obj2", ex=["src2"], hidden=["hdr"], deps="msvc"),
-                       Stmt("r", ex=["s"], restat=True), Stmt("exe", ex=["obj", "obj2", "r"])], header="builddir = bd"),
+                       Stmt("r", ex=["s"], restat=True), Stmt("bd/lib", ex=["obj"]), Stmt("exe", ex=["bd/lib", "obj2", "r"])],
+                header="builddir = bd"),
     ])]
 
 
@@ -226,6 +227,12 @@ def readonly_scenarios(tier="quick"):
             tools.append(ro(["-t", "query", o]))
             tools.append(ro(["-t", "multi-inputs", o]))
             tools.append(ro(["-t", "compdb-targets", o], "compdb"))
+        if name.startswith("builddir"):
+            # a target may be named relative to $builddir: "lib" is bd/lib -- for the build, the dry run and every tool alike
+            tools.append(ninja_op(targets=["lib"], j=2, flags=["-n"], dry_run=True, label="ninja -j2 -n lib"))
+            tools[-1]["targets_canonical"] = ["bd/lib"]
+            for tname, kind in (("commands", "commands"), ("inputs", "readonly"), ("query", "readonly"), ("compdb-targets", "compdb")):
+                tools.append(ro(["-t", tname, "lib"], kind, ["bd/lib"]))
         tools.append(ro(["-t", "targets", "all"]))
         tools.append(ro(["-t", "targets", "depth", "2"]))
         tools.append(ro(["-t", "targets", "rule"]))
